@@ -54,6 +54,8 @@ type verdict struct {
 	class string // rejected | nil | accepted-same | accepted-other
 	viol  string // non-empty: the property is violated
 	kind  string // panic | invalid | reencode | idempotence
+	site  string // for panics: the innermost library function on the stack
+	note  string // recorded, not asserted
 }
 
 // judge is oracle (V): decoding b never panics; if it succeeds the object satisfies its validity
@@ -62,7 +64,7 @@ func judge(e *entry, b []byte) verdict {
 	var obj any
 	var derr error
 	if p, st := safely(func() { obj, derr = e.decode(b) }); p != nil {
-		return verdict{viol: fmt.Sprintf("decoding PANICKED: %v\n%s", p, trimStack(st)), kind: "panic"}
+		return verdict{viol: fmt.Sprintf("decoding PANICKED: %v\n%s", p, trimStack(st)), kind: "panic", site: panicSite(st)}
 	}
 	if derr != nil {
 		if errors.Is(derr, errMirrorDiverges) {
@@ -90,21 +92,42 @@ func judge(e *entry, b []byte) verdict {
 	if isNilAny(obj2) {
 		return verdict{viol: fmt.Sprintf("the re-encoding %x decodes to nil", re), kind: "idempotence"}
 	}
-	eq, how, err := equalAny(e, obj, obj2)
+	eq, _, err := equalAny(e, obj, obj2)
 	if err != nil {
 		return verdict{viol: "comparing the object with its decoded re-encoding: " + err.Error(), kind: "idempotence"}
 	}
-	if !eq {
-		return verdict{viol: fmt.Sprintf("the re-encoding %x decodes to an object that is not equal (%s) to the first one", re, how), kind: "idempotence"}
-	}
 	re2, err := safeEncode(e, obj2)
-	if err != nil || !bytes.Equal(re, re2) {
+	if err != nil || !sameEncoding(e, re, re2) {
 		return verdict{viol: fmt.Sprintf("encoding is not stable: %x then %x (err=%v)", re, re2, err), kind: "idempotence"}
 	}
-	if bytes.Equal(re, b) {
-		return verdict{class: "accepted-same"}
+	note := ""
+	if !eq {
+		// Both objects have the same canonical encoding but the type's Equal says "different":
+		// Equal is not reflexive on this (degenerate, e.g. nil-component) object. Types without a
+		// constructor have no rule that forbids such an object, so this is recorded, not asserted;
+		// on honestly produced values oracle R does assert Equal.
+		note = "equal-false-on-identical-encoding"
 	}
-	return verdict{class: "accepted-other"}
+	if sameEncoding(e, re, b) {
+		return verdict{class: "accepted-same", note: note}
+	}
+	return verdict{class: "accepted-other", note: note}
+}
+
+// panicSite names the innermost function of the library on a panic stack.
+func panicSite(st string) string {
+	lines := strings.Split(st, "\n")
+	for i := 0; i+1 < len(lines); i++ {
+		l := lines[i]
+		if strings.HasPrefix(l, "github.com/bronlabs/bron-crypto/pkg/") && !strings.Contains(l, "/serde.") {
+			f := strings.TrimPrefix(l, "github.com/bronlabs/bron-crypto/pkg/")
+			if j := strings.LastIndex(f, "("); j > 0 {
+				f = f[:j]
+			}
+			return f
+		}
+	}
+	return "?"
 }
 
 func trimStack(st string) string {
